@@ -243,7 +243,7 @@ pub fn search(args: &[String]) -> i32 {
         write_out(args, &format!("kind: c02-source\nseed: {seed}\nprograms: {programs}\nobserved: {w}\n"));
         return 3;
     }
-    println!("c02 search: {count} random operation trees (sequences, nested branches, repeated conditions) through the builder and {programs} source programs x 30 inputs (failing operations in sequences, if conditions and branches, match arms, && / || operands) through the compiler, no disagreement");
+    println!("c02 search: {count} random operation trees (sequences, nested branches, repeated conditions) through the builder and {programs} source programs x 30 inputs (failing operations in sequences, if conditions and branches, match arms, && / || operands, for and for-join loop bodies, called functions, array reads and element assignments) through the compiler, no disagreement");
     0
 }
 
@@ -298,6 +298,14 @@ enum Stmt {
     If(Cond, Bin, Bin),
     Match(Atom, Bin, Bin, Bin),    // match x % 3u8 { 0 => .., 1 => .., _ => .. }
     AndOr(bool, Cond, Cond, Bin, Bin), // if (c1 && c2) / (c1 || c2) { .. } else { .. }
+    /// for ((_, p), (_, q)) in join_iter([(k, x)..], [(k, y)..]) { acc = acc ^ (p op q) }  -- keys strictly ascending literals
+    Join(Vec<(u8, Atom)>, Vec<(u8, Atom)>, &'static str),
+    /// for e in [x, y, z] { acc = acc ^ (e op w) }
+    For(Vec<Atom>, &'static str, Atom),
+    /// a call h(x, y) of a private function whose body is the failing operation
+    Call(Bin),
+    /// let mut arr = [a, b, c]; arr[(x % 4u8) as usize] = y;  -- index 3 is out of bounds
+    ArrAssign(Atom, Atom),
 }
 
 fn atom_src(a: &Atom) -> String {
@@ -323,8 +331,33 @@ fn cond_src(c: &Cond) -> String {
 
 /// program text; every potentially failing operation is alone on its line, `lines` of a statement are recorded
 /// relative to the statement's first line
+fn op_name(op: &str) -> &'static str {
+    match op { "+" => "add", "-" => "sub", "*" => "mul", "/" => "div", "%" => "rem", "<<" => "shl", _ => "shr" }
+}
+
 fn stmt_src(s: &Stmt, k: usize) -> Vec<String> {
     match s {
+        Stmt::Join(xs, ys, op) => {
+            let arr = |v: &Vec<(u8, Atom)>| format!("[{}]", v.iter().map(|(key, a)| format!("({key}u8, {})", atom_src(a))).collect::<Vec<_>>().join(", "));
+            vec![
+                format!("    let mut v{k} = 0u8;"),
+                format!("    for ((_, p), (_, q)) in join_iter({}, {}) {{", arr(xs), arr(ys)),
+                format!("        v{k} = v{k} ^ (p {op} q);"),
+                "    }".to_string(),
+            ]
+        }
+        Stmt::For(es, op, w) => vec![
+            format!("    let mut v{k} = 0u8;"),
+            format!("    for e in [{}] {{", es.iter().map(atom_src).collect::<Vec<_>>().join(", ")),
+            format!("        v{k} = v{k} ^ (e {op} {});", atom_src(w)),
+            "    }".to_string(),
+        ],
+        Stmt::Call(b) => vec![format!("    let v{k} = h_{}({}, {});", op_name(b.op), atom_src(&b.x), atom_src(&b.y))],
+        Stmt::ArrAssign(x, y) => vec![
+            format!("    let mut arr{k} = [a, b, c];"),
+            format!("    arr{k}[({} % 4u8) as usize] = {};", atom_src(x), atom_src(y)),
+            format!("    let v{k} = arr{k}[0] ^ arr{k}[1] ^ arr{k}[2];"),
+        ],
         Stmt::Arith(b) => vec![format!("    let v{k} = {};", bin_src(b))],
         Stmt::Index(x) => vec![format!("    let v{k} = [a, b, c, 7u8][({} % 5u8) as usize];", atom_src(x))],
         Stmt::If(c, t, f) => vec![
@@ -391,8 +424,40 @@ fn cond_val(c: &Cond, env: &[u8], line: usize) -> Result<bool, (u8, usize)> {
     }
 }
 
+/// line offset of the failing operation of a Call statement: negative = inside a helper (resolved by the caller)
+const CALL_LINE: usize = usize::MAX;
+
 fn stmt_val(s: &Stmt, env: &[u8]) -> Result<u8, (u8, usize)> {
     match s {
+        Stmt::Join(xs, ys, op) => {
+            // sorted-merge join: the body runs once per common key, in ascending key order
+            let mut acc = 0u8;
+            for (kx, x) in xs {
+                for (ky, y) in ys {
+                    if kx == ky {
+                        let v = bin_val(&Bin { op, x: Atom::Lit(atom_val(x, env)), y: Atom::Lit(atom_val(y, env)) }, env).map_err(|r| (r, 2))?;
+                        acc ^= v;
+                    }
+                }
+            }
+            Ok(acc)
+        }
+        Stmt::For(es, op, w) => {
+            let mut acc = 0u8;
+            for e in es {
+                let v = bin_val(&Bin { op, x: Atom::Lit(atom_val(e, env)), y: Atom::Lit(atom_val(w, env)) }, env).map_err(|r| (r, 2))?;
+                acc ^= v;
+            }
+            Ok(acc)
+        }
+        Stmt::Call(b) => bin_val(b, env).map_err(|r| (r, CALL_LINE)),
+        Stmt::ArrAssign(x, y) => {
+            let i = atom_val(x, env) % 4;
+            if i >= 3 { return Err((3, 1)); }
+            let mut arr = [env[0], env[1], env[2]];
+            arr[i as usize] = atom_val(y, env);
+            Ok(arr[0] ^ arr[1] ^ arr[2])
+        }
         Stmt::Arith(b) => bin_val(b, env).map_err(|r| (r, 0)),
         Stmt::Index(x) => {
             let i = atom_val(x, env) % 5;
@@ -427,7 +492,33 @@ fn rand_cond(rng: &mut Rng, nvars: usize) -> Cond {
     if rng.below(2) == 0 { Cond::Cmp(rand_atom(rng, nvars), c, rand_atom(rng, nvars)) } else { Cond::OpCmp(rand_bin(rng, nvars), c, [0u8, 1, 44, 100, 200][rng.below(5)]) }
 }
 
+fn rand_keys(rng: &mut Rng, n: usize) -> Vec<u8> {
+    let mut ks: Vec<u8> = vec![];
+    let mut k = rng.below(3) as u8;
+    for _ in 0..n {
+        ks.push(k);
+        k += 1 + rng.below(2) as u8;
+    }
+    ks
+}
+
 fn rand_stmt(rng: &mut Rng, nvars: usize) -> Stmt {
+    let ops = ["+", "-", "*", "/", "%", "<<", ">>", "+", "/"];
+    match rng.below(13) {
+        9 => {
+            let (n, m) = (1 + rng.below(3), 1 + rng.below(3));
+            let xs = rand_keys(rng, n).into_iter().map(|k| (k, rand_atom(rng, nvars))).collect();
+            let ys = rand_keys(rng, m).into_iter().map(|k| (k, rand_atom(rng, nvars))).collect();
+            Stmt::Join(xs, ys, ops[rng.below(9)])
+        }
+        10 => Stmt::For((0..1 + rng.below(3)).map(|_| rand_atom(rng, nvars)).collect(), ops[rng.below(9)], rand_atom(rng, nvars)),
+        11 => Stmt::Call(rand_bin(rng, nvars)),
+        12 => Stmt::ArrAssign(rand_atom(rng, nvars), rand_atom(rng, nvars)),
+        _ => rand_stmt_basic(rng, nvars),
+    }
+}
+
+fn rand_stmt_basic(rng: &mut Rng, nvars: usize) -> Stmt {
     match rng.below(9) {
         0..=2 => Stmt::Arith(rand_bin(rng, nvars)),
         3 => Stmt::Index(rand_atom(rng, nvars)),
@@ -437,8 +528,31 @@ fn rand_stmt(rng: &mut Rng, nvars: usize) -> Stmt {
     }
 }
 
+/// line (0-based) of the operation inside the helper function of `op`, if the program has one
+fn helper_line(stmts: &[Stmt], op: &str) -> Option<usize> {
+    let mut used: Vec<&'static str> = vec![];
+    for s in stmts {
+        if let Stmt::Call(b) = s {
+            if !used.contains(&b.op) { used.push(b.op); }
+        }
+    }
+    used.iter().position(|o| *o == op).map(|i| 3 * i + 1)
+}
+
 fn program_src(stmts: &[Stmt]) -> (String, Vec<usize>) {
-    let mut lines = vec!["pub fn main(a: u8, b: u8, c: u8) -> u8 {".to_string()];
+    let mut lines: Vec<String> = vec![];
+    let mut used: Vec<&'static str> = vec![];
+    for s in stmts {
+        if let Stmt::Call(b) = s {
+            if !used.contains(&b.op) { used.push(b.op); }
+        }
+    }
+    for op in &used {
+        lines.push(format!("fn h_{}(p: u8, q: u8) -> u8 {{", op_name(op)));
+        lines.push(format!("    p {op} q"));
+        lines.push("}".to_string());
+    }
+    lines.push("pub fn main(a: u8, b: u8, c: u8) -> u8 {".to_string());
     let mut first_line = vec![];
     for (k, s) in stmts.iter().enumerate() {
         first_line.push(lines.len());
@@ -474,7 +588,10 @@ pub fn check_src(stmts: &[Stmt], inputs: &[(u8, u8, u8)]) -> Result<(), String> 
                     acc ^= v;
                 }
                 Err((r, off)) => {
-                    expected = Some((r, first_line[k] + off));
+                    let line = if off == CALL_LINE {
+                        match s { Stmt::Call(b) => helper_line(stmts, b.op).unwrap(), _ => unreachable!() }
+                    } else { first_line[k] + off };
+                    expected = Some((r, line));
                     break;
                 }
             }
